@@ -69,6 +69,25 @@ fn hook(point: usize) {
     }
 }
 
+thread_local! { static WRITER_THREAD: std::cell::Cell<bool> = const { std::cell::Cell::new(false) }; }
+
+/// Further scheduling points without any source change: every `#[instrument]`ed function the thread that publishes rounds
+/// enters (State::update_from_round, FlowRegistry::register, Flow::check, ...) creates a `tracing` span; this subscriber
+/// turns the creation of a span on that thread into a call of the yield hook.
+struct SpanYield;
+impl tracing::Subscriber for SpanYield {
+    fn enabled(&self, _: &tracing::Metadata<'_>) -> bool { WRITER_THREAD.with(std::cell::Cell::get) }
+    fn new_span(&self, _: &tracing::span::Attributes<'_>) -> tracing::span::Id {
+        if WRITER_THREAD.with(std::cell::Cell::get) { hook(100); }
+        tracing::span::Id::from_u64(1)
+    }
+    fn record(&self, _: &tracing::span::Id, _: &tracing::span::Record<'_>) {}
+    fn record_follows_from(&self, _: &tracing::span::Id, _: &tracing::span::Id) {}
+    fn event(&self, _: &tracing::Event<'_>) {}
+    fn enter(&self, _: &tracing::span::Id) {}
+    fn exit(&self, _: &tracing::span::Id) {}
+}
+
 fn to_round<'a>(r: &'a RoundIn) -> Round<'a> {
     Round::new(&r.probes, TimeToLive(r.largest_ttl), if r.tf { CompletionReason::TargetFound } else { CompletionReason::RoundTimeLimitExceeded })
 }
@@ -203,12 +222,9 @@ fn controlled(ms: usize, mf: usize, rounds: &[RoundIn], pre: &[(usize, usize, bo
             obs[i] = if cls.is_empty() { "torn".to_string() } else { cls.join("|") };
         }
     }
-    for s in &seen_all {
-        if let Some((rd, cd)) = *s.lock().unwrap() {
-            if rd { fails.push("C20:snapshot_returned_while_the_handler_was_mid-round".to_string()); }
-            if cd { fails.push("C20:clear_returned_while_the_handler_was_mid-round".to_string()); }
-        }
-    }
+    // (whether the released reader / clearer stayed blocked at the scheduling point is part of the output compared with the
+    //  model; by itself it is not a violation: what the property excludes is a snapshot or final state that is not a
+    //  whole-rounds state, judged above and below)
     let fin = classify(&final_state);
     if fin.is_empty() { fails.push("C20:final_state_is_not_a_whole-rounds_state".to_string()); }
     // a clear at rest: what it installs is the tracer's empty state (same sample / flow limits), and rounds applied
@@ -323,6 +339,8 @@ fn stress(ms: usize, mf: usize, rounds: &[RoundIn], readers: usize, out: &mut Ou
 
 pub fn run(args: &Args, out: &mut Out) {
     trippy_core::verif::set_yield_hook(Some(hook));
+    let _ = tracing::subscriber::set_global_default(SpanYield);
+    WRITER_THREAD.with(|w| w.set(true));
     if let Some(path) = &args.replay {
         for l in crate::replay_inputs(path) {
             let t: Vec<&str> = l.split(' ').collect();
@@ -371,6 +389,20 @@ pub fn run(args: &Args, out: &mut Out) {
             for k in 0..=rounds.len() - 2 { parked_reader(ms, mf, &rounds, k, out); }
         }
         if args.tier_thorough { stress(ms, mf, &rounds, 6, out); }
+    }
+    // the steady state of a multi-flow trace: two flows are known and the round being published exactly matches one of them
+    // (no registration, only a lookup); a clear requested at every scheduling point of that round
+    {
+        let one = |i: usize, host: u8| format!("1/tf/C:{}.7.5000.{}.1.{i}.1000000000000:0a6300{host:02x}:1000000500000:te0:-:-:-:-", 40000 + i, 40000 + i);
+        let rounds = parse_rounds(&[one(0, 1), one(1, 2), one(2, 2), one(3, 1)].join(";"));
+        let (ms, mf) = (10usize, 4usize);
+        let counts = yield_counts(&rounds, ms, mf);
+        for ri in 2..rounds.len() {
+            for y in 0..counts[ri] {
+                controlled(ms, mf, &rounds, &[(ri, y, true)], out);
+                placements += 1;
+            }
+        }
     }
     // a short stress run in the quick tier as well
     let (_, _, mut rounds) = gen_rounds_pub(&mut rng);
